@@ -24,6 +24,8 @@ var Rules = []string{
 	"arrays and structs have value semantics; constant and in-range dynamic indices (Go; testsuite/lang/array.mpcl, composite_lit.mpcl)",
 	"functions with several results (Go; testsuite/lang/named_return*.mpcl)",
 	"package-level constants and variables, shadowed by locals (Go; testsuite/lang/pkg.mpcl, var.mpcl)",
+	"an untyped integer literal takes the type of its context (assignment target, other operand, parameter, result) (Go constants; README 'constants are untyped')",
+	"unary minus is 0 - x in the operand's type; x op= e is x = x op e; x++ / x-- add / subtract one (Go)",
 }
 
 // Type is a scalar, array or struct type.
@@ -346,6 +348,15 @@ func (x Bin) Eval(e *Env) Value {
 	panic("refsem: op " + x.Op)
 }
 
+// Neg is unary minus: 0 - x in the type of x.
+type Neg struct{ X Expr }
+
+func (x Neg) Eval(e *Env) Value {
+	v := x.X.Eval(e)
+	return Scalar(v.T, new(big.Int).Neg(v.P))
+}
+func (x Neg) Src() string { return "(-" + x.X.Src() + ")" }
+
 // Not is boolean negation.
 type Not struct{ X Expr }
 
@@ -496,6 +507,42 @@ func (s Assign) Src(in string) string {
 		l += "." + s.Field
 	}
 	return in + l + " = " + s.X.Src() + "\n"
+}
+
+// OpAssign is x op= e, IncDec is x++ / x--.
+type OpAssign struct {
+	Name string
+	Op   string
+	X    Expr
+}
+
+func (s OpAssign) Exec(e *Env) (bool, []Value) {
+	dst := e.lookup(s.Name)
+	*dst = Bin{Op: s.Op, L: Var{Name: s.Name}, R: s.X}.Eval(e).clone()
+	return false, nil
+}
+func (s OpAssign) Src(in string) string { return in + s.Name + " " + s.Op + "= " + s.X.Src() + "\n" }
+
+// IncDec is x++ (Inc) or x--.
+type IncDec struct {
+	Name string
+	Inc  bool
+}
+
+func (s IncDec) Exec(e *Env) (bool, []Value) {
+	dst := e.lookup(s.Name)
+	d := big.NewInt(1)
+	if !s.Inc {
+		d = big.NewInt(-1)
+	}
+	*dst = Scalar(dst.T, new(big.Int).Add(dst.P, d))
+	return false, nil
+}
+func (s IncDec) Src(in string) string {
+	if s.Inc {
+		return in + s.Name + "++\n"
+	}
+	return in + s.Name + "--\n"
 }
 
 // MultiAssign is a, b := f(...) (define=true) or a, b = f(...).
